@@ -91,7 +91,7 @@ def run_item(item):
     res = new_result()
     I = interp()
     vs, s = sym_sequence(I, N)
-    rng = random.Random(N * 131 + len(g))
+    rng = seeded_rng(N * 131 + len(g))
 
     def thunk():
         sp = I.call(SequenceParameters, [s], {})
@@ -136,7 +136,7 @@ def run_count_item(item):
     res = new_result()
     I = interp()
     vs, s = sym_sequence(I, N)
-    rng = random.Random(N * 977 + len(item["name"]))
+    rng = seeded_rng(N * 977 + len(item["name"]))
     if g == "comp":
         a, b = item["npos"], item["nneg"]
         I.solver.add(composition(vs, a, b))
